@@ -147,6 +147,7 @@ class NpRegion(object):
 
     def store(self, i, v):
         self.interp.writes.append((self.arr, i))
+        self.arr._check_writable()
         self.arr.a.flat[i] = symnp.cast_cell(v, self.arr.dt)
 
 
